@@ -23,13 +23,27 @@ type SrvReqOps interface {
 
 // Respond to the request with Rerror message
 func (req *SrvReq) RespondError(err interface{}) {
+	var ename string
+	ecode := uint32(EIO)
 	switch e := err.(type) {
 	case *Error:
-		_ = PackRerror(req.Rc, e.Error(), uint32(e.Errornum), req.Conn.Dotu)
+		ename, ecode = e.Error(), uint32(e.Errornum)
 	case error:
-		_ = PackRerror(req.Rc, e.Error(), uint32(EIO), req.Conn.Dotu)
+		ename = e.Error()
 	default:
-		_ = PackRerror(req.Rc, fmt.Sprintf("%v", e), uint32(EIO), req.Conn.Dotu)
+		ename = fmt.Sprintf("%v", e)
+	}
+
+	if PackRerror(req.Rc, ename, ecode, req.Conn.Dotu) != nil {
+		// the text does not fit in the reply buffer (tiny msize): send as much of it as fits
+		room := len(req.Rc.Buf) - 22 /* size[4] type[1] tag[2] ename[2] ecode[4], 9 for the Akaros prefix */
+		if room < 0 {
+			room = 0
+		}
+		if room < len(ename) {
+			ename = ename[:room]
+		}
+		_ = PackRerror(req.Rc, ename, ecode, req.Conn.Dotu)
 	}
 
 	req.Respond()
